@@ -345,7 +345,9 @@ def add_depths(rng, spec, *, max_layers=4, n_depths=None):
         vals = phys if order == 'shallow_to_deep' else phys[::-1]
         if positive == 'up':
             vals = [-v for v in vals]
-        attrs = {'positive': positive, 'long_name': name}
+        # CF: the value of `positive` is case insensitive
+        written = rng.choice([positive, positive, positive.upper(), positive.capitalize()])
+        attrs = {'positive': written, 'long_name': name}
         if rng.random() < 0.5:
             attrs['axis'] = 'Z'
         depths.append({'name': name, 'dim': dim, 'values': vals, 'attrs': attrs, 'positive': positive,
